@@ -54,6 +54,10 @@ func payloadToks(p string, lower bool) []string {
 		return []string{"'a'", "=", "'a'"}
 	case "taut-ident":
 		return []string{"k", "=", "k"}
+	case "taut-empty-str":
+		return []string{"''", "=", "''"}
+	case "taut-zero":
+		return []string{"0", "=", "0"}
 	case "sleep":
 		return []string{fn("SLEEP"), "(", "5", ")", "=", "0"}
 	case "pg_sleep":
@@ -322,7 +326,7 @@ func main() {
 	run.AddTLC(es)
 	// references
 	ref := map[string][]string{}
-	for _, p := range []string{"taut-num", "taut-str", "taut-ident", "sleep", "pg_sleep", "benchmark", "load_file", "xp_cmdshell", "union-null", "union-system", "union-null-system"} {
+	for _, p := range []string{"taut-num", "taut-str", "taut-ident", "taut-empty-str", "taut-zero", "sleep", "pg_sleep", "benchmark", "load_file", "xp_cmdshell", "union-null", "union-system", "union-null-system"} {
 		for _, lower := range []bool{false, true} {
 			var text string
 			if st := stmtPayload(p, lower); st != nil {
